@@ -37,3 +37,10 @@ os.environ.setdefault("MAGIC_WORMHOLE_VERIF", "1")
 
 import txaio  # noqa: E402
 txaio.use_twisted()
+
+# keep Twisted from printing every logged error to stderr; observers added later still see them
+from twisted.logger import globalLogBeginner  # noqa: E402
+try:
+    globalLogBeginner.beginLoggingTo([lambda e: None], redirectStandardIO=False, discardBuffer=True)
+except Exception:
+    pass
